@@ -29,6 +29,13 @@ func callPool(r *rng, n int) []string {
 			pool = append(pool, decCase("decode", "000", "-", "-", dc.data))
 		}
 	}
+	// streams whose records use the reference time before (or without) setting it: any decoder
+	// state surviving a call shows in their timestamps
+	for i, c := range genTimestamps(r, n).Cases {
+		if dc, ok := parseDecCase(c); ok && len(dc.data) < 3000 {
+			pool = append(pool, decCase([]string{"decode", "chained"}[i%2], "000", "-", "-", dc.data))
+		}
+	}
 	for i := 0; i < n/2; i++ {
 		txt := randFileText(r, hostedFileTypes()[i%len(hostedFileTypes())], fileKnobs{maxGroup: 5, fieldPct: 30})
 		pool = append(pool, fmt.Sprintf("enc %d %s", i%2, txt))
@@ -64,7 +71,7 @@ func init() {
 			rep.Cases = append(rep.Cases, fmt.Sprintf("encrep 8 %d %s", i%2, txt))
 		}
 		return []CaseSet{alone, hist, rep},
-			"random histories of 5-40 calls (Decode with option sets, DecodeChained, CheckIntegrity, DecodeHeaderAndFileID, Encode in both byte orders) over a pool of inputs incl. component-bearing files, every call also made alone with fresh package state and, for a sample, first in a fresh process; every Encode repeated 8 times on deeply equal Files. Oracles: each result in a history equals the model threading the package-level accumulators, equals the call alone except on the accumulated fields named in known_findings.txt, identical bytes for identical Files; static fact: the set of package-level variables written on the decode/encode paths", false
+			"random histories of 5-40 calls (Decode with option sets, DecodeChained, CheckIntegrity, DecodeHeaderAndFileID, Encode in both byte orders) over a pool of inputs incl. component-bearing files and timestamp sequences that use the time reference before setting it, every call also made alone with fresh package state and, for a sample, first in a fresh process; every Encode repeated 8 times on deeply equal Files. Oracles: each result in a history equals the model threading the package-level accumulators, equals the call alone except on the accumulated fields named in known_findings.txt, identical bytes for identical Files; static fact: the set of package-level variables written on the decode/encode paths", false
 	}
 	propPost["C08"] = postC08
 }
